@@ -19,9 +19,11 @@ OPT_NOTE = ("optimiser model (coq/model/Optimiser.v) replayed bit-for-bit agains
             "MCOptimiser::optimise_state on scripted and real states")
 
 PROPS = {
-    "C09": dict(props_file="props/C09.v", engines=[("cli", dict(quick=4, thorough=60)), ("opt", dict(focus="C09", quick=160, thorough=4000))],
+    "C09": dict(props_file="props/C09.v", engines=[("cli", dict(quick=4, thorough=60)), ("opt", dict(focus="C09", quick=160, thorough=4000)),
+                                                      ("geom", dict(quick=[("ORD", 3000)], thorough=[("ORD", 150000)]))],
                 design="DESIGN.md section 4 C09"),
-    "C10": dict(props_file="props/C10.v", needs_gen=True, engines=[("cli", dict(quick=10, thorough=120)), ("tables", dict(groups=False, labels=True))],
+    "C10": dict(props_file="props/C10.v", needs_gen=True, engines=[("cli", dict(quick=10, thorough=120)), ("tables", dict(groups=False, labels=True)),
+                                                                      ("geom", dict(quick=[("ORD", 3000)], thorough=[("ORD", 150000)]))],
                 design="DESIGN.md section 4 C10"),
     "C11": dict(props_file="props/C11.v", needs_gen=True, engines=[("geom", dict(quick=[("C11", 4000)], thorough=[("C11", 200000)])), ("cli", dict(quick=3, thorough=40))],
                 design="DESIGN.md section 4 C11"),
